@@ -142,3 +142,9 @@ package types
 //@   option trusted
 //@   ensures istype(context["refund"], RefundMapT) ==> result == unbox(context["refund"], RefundMapT)
 //@   modifies nothing
+
+// The consensus layer's view of a group (C19): the check is a query.
+//@ func ConsensusHelper.CheckGroup
+//@   option trusted interface
+//@   ensures !result0 ==> result1 != nil
+//@   modifies nothing
